@@ -270,10 +270,14 @@ def census(chk, facts, cfg):
                     inv.setdefault(b.path, {}).setdefault(k, 0)
                     inv[b.path][k] += 1
                     where.setdefault((b.path, k), (b.file, t.line))
+        from ..zone import inventory_slack, draw_slack
+        slack = inventory_slack({q: e for q, e in conf.items() if q.startswith(c + "::") or q.startswith("<" + c + "::")}, inv)
         for p, counts in sorted(inv.items()):
             for k, n in counts.items():
                 total += n
                 allowed = conf.get(p, {}).get("counts", {}).get(k, 0)
+                if n > allowed and draw_slack(slack, p, k, n - allowed):
+                    allowed = n      # the confirmed function was renamed / moved inside its module
                 f_, l_ = where[(p, k)]
                 chk.ob("C02-f", f"{p}: {n} {k} site(s)", n <= allowed, why=conf.get(p, {}).get("reason"), key=f"panic|{p}|{k}",
                        file=f_, line=l_, fn=p,
